@@ -615,7 +615,7 @@ fn json_edits(root: &J, tier: Tier, out: &mut dyn FnMut(J)) {
 pub const FAMILIES: &[&str] = &[
     "parens", "tuples", "arrays", "unary-neg", "unary-not", "binary-add-left", "binary-pow-right", "binary-and", "pipeline-steps",
     "case-arms", "fstring-holes", "module-nesting", "long-ident", "long-string", "long-tuple", "nested-calls", "nested-pipelines",
-    "derive-chain", "coalesce-chain", "range-chain", "let-chain", "join-chain", "long-comment", "nested-sstring",
+    "derive-chain", "coalesce-chain", "range-chain", "let-chain", "join-chain", "long-comment", "nested-sstring", "wide-line", "wide-tuple-item",
 ];
 
 pub fn family_source(name: &str, n: usize) -> String {
@@ -643,6 +643,9 @@ pub fn family_source(name: &str, n: usize) -> String {
         "range-chain" => format!("from t | filter (a | in 1..{})", rep("1..", n)),
         "let-chain" => format!("let t0 = (from t)\n{}from t{}", (0..n).map(|i| format!("let t{} = (from t{} | filter a > {})\n", i + 1, i, i)).collect::<String>(), n),
         "join-chain" => format!("from t{}", (0..n).map(|i| format!(" | join u{i} (==a)")).collect::<String>()),
+        // widths between the formatter's retry widths and 2^16 (n = 64 → 57600 columns)
+        "wide-line" => format!("let {} = 1\nfrom t", rep("a", n * 900)),
+        "wide-tuple-item" => format!("from t | select {{a, x = '{}', b}}", rep("s", n * 900)),
         "long-comment" => format!("# {}\nfrom t", rep("c", n * 256)),
         "nested-sstring" => format!("from t | select {{x = {}a{}}}", rep("s\"ABS({", n.min(1)), rep("})\"", n.min(1))).replace("ABS", &rep("A", n)),
         _ => panic!("unknown family {name}"),
